@@ -401,6 +401,160 @@ theorem other_files_untouched (marshal : Conf → Option Bytes) (target : Path) 
     show (run marshal target es (step marshal target s e)).fs p = s.fs p
     rw [ih _ key.2 (fun rb c tmp h => hev rb c tmp (List.mem_cons_of_mem _ h)), key.1]
 
+/-! ### several stores at once (no mutual exclusion assumed) -/
+
+/-- a `begin` uses a temporary name that differs from the target and from the temporary name of every
+store that has not returned yet (62⁵ random names; a name may be reused once its store is over) -/
+def CEvOK (target : Path) (s : CSt) : CEv → Prop
+  | .begin _ _ tmp => tmp ≠ target ∧ ∀ j t, s.tasks j = some t → isRet t.pc = none → t.tmp ≠ tmp
+  | .sys _ _ => True
+
+def CRunOK (target : Path) : CSt → List CEv → Prop
+  | _, [] => True
+  | s, e :: es => CEvOK target s e ∧ CRunOK target (cstep target s e) es
+
+structure CInv (target : Path) (init : Option Bytes) (s : CSt) : Prop where
+  ne : ∀ i t, s.tasks i = some t → t.tmp ≠ target
+  distinct : ∀ i j ti tj, s.tasks i = some ti → s.tasks j = some tj → i ≠ j →
+    isRet ti.pc = none → isRet tj.pc = none → ti.tmp ≠ tj.tmp
+  ok : ∀ i t, s.tasks i = some t → TaskOK target s.fs t
+  mem : ∀ i t, s.tasks i = some t → t.buf ∈ s.begun
+  tgt : s.fs target = init ∨ ∃ b ∈ s.begun, s.fs target = some b
+
+theorem cinv_init (target : Path) (fs0 : FS) : CInv target (fs0 target) { fs := fs0 } := by
+  refine ⟨?_, ?_, ?_, ?_, Or.inl rfl⟩
+  · intro i t h; simp at h
+  · intro i j ti tj h; simp at h
+  · intro i t h; simp at h
+  · intro i t h; simp at h
+
+theorem cinv_step (target : Path) (init : Option Bytes) (s : CSt) (e : CEv)
+    (he : CEvOK target s e) (h : CInv target init s) : CInv target init (cstep target s e) := by
+  cases e with
+  | «begin» i buf tmp =>
+    obtain ⟨hne, hfree⟩ := he
+    unfold cstep
+    simp only
+    split
+    · exact h
+    · rename_i hnone
+      have key : ∀ j u, (if j = i then some (⟨tmp, buf, .openTmp buf⟩ : CTask) else s.tasks j) = some u →
+          (j = i ∧ u = ⟨tmp, buf, .openTmp buf⟩) ∨ (j ≠ i ∧ s.tasks j = some u) := by
+        intro j u hj
+        by_cases hji : j = i
+        · simp only [hji, if_true, Option.some.injEq] at hj
+          exact Or.inl ⟨hji, hj.symm⟩
+        · simp only [hji, if_false] at hj
+          exact Or.inr ⟨hji, hj⟩
+      refine ⟨?_, ?_, ?_, ?_, ?_⟩
+      · intro j u hj
+        rcases key j u hj with ⟨_, rfl⟩ | ⟨_, hj'⟩
+        · exact hne
+        · exact h.ne j u hj'
+      · intro a b ta tb ha hb hab hra hrb
+        rcases key a ta ha with ⟨hai, rfl⟩ | ⟨hai, ha'⟩
+        · rcases key b tb hb with ⟨hbi, rfl⟩ | ⟨_, hb'⟩
+          · exact absurd (hai.trans hbi.symm) hab
+          · exact fun heq => hfree b tb hb' hrb heq.symm
+        · rcases key b tb hb with ⟨_, rfl⟩ | ⟨_, hb'⟩
+          · exact hfree a ta ha' hra
+          · exact h.distinct a b ta tb ha' hb' hab hra hrb
+      · intro j u hj
+        rcases key j u hj with ⟨_, rfl⟩ | ⟨_, hj'⟩
+        · intro _
+          exact ⟨rfl, rfl⟩
+        · exact h.ok j u hj'
+      · intro j u hj
+        rcases key j u hj with ⟨_, rfl⟩ | ⟨_, hj'⟩
+        · exact List.mem_cons_self
+        · exact List.mem_cons_of_mem _ (h.mem j u hj')
+      · rcases h.tgt with h1 | ⟨b, hb, h1⟩
+        · exact Or.inl h1
+        · exact Or.inr ⟨b, List.mem_cons_of_mem _ hb, h1⟩
+  | sys i r =>
+    unfold cstep
+    simp only
+    cases ht : s.tasks i with
+    | none => simp only; exact h
+    | some t =>
+      simp only
+      cases hn : next target t.tmp s.fs t.pc r with
+      | none => simp only; exact h
+      | some pf =>
+        obtain ⟨pc', fs'⟩ := pf
+        simp only
+        have hne := h.ne i t ht
+        obtain ⟨hok', htg⟩ := TaskOK.act hne (h.ok i t ht) hn
+        have hlive : isRet t.pc = none := by
+          cases hp : t.pc with
+          | ret e => rw [hp] at hn; cases r <;> simp [next] at hn
+          | _ => rfl
+        have key : ∀ j u, (if j = i then some ({ t with pc := pc' } : CTask) else s.tasks j) = some u →
+            (j = i ∧ u = { t with pc := pc' }) ∨ (j ≠ i ∧ s.tasks j = some u) := by
+          intro j u hj
+          by_cases hji : j = i
+          · simp only [hji, if_true, Option.some.injEq] at hj
+            exact Or.inl ⟨hji, hj.symm⟩
+          · simp only [hji, if_false] at hj
+            exact Or.inr ⟨hji, hj⟩
+        refine ⟨?_, ?_, ?_, ?_, ?_⟩
+        · intro j u hj
+          rcases key j u hj with ⟨_, rfl⟩ | ⟨_, hj'⟩
+          · exact hne
+          · exact h.ne j u hj'
+        · intro a b ta tb ha hb hab hra hrb
+          rcases key a ta ha with ⟨hai, rfl⟩ | ⟨hai, ha'⟩
+          · rcases key b tb hb with ⟨hbi, rfl⟩ | ⟨hbi, hb'⟩
+            · exact absurd (hai.trans hbi.symm) hab
+            · exact h.distinct i b t tb ht hb' (fun e => hbi e.symm) hlive hrb
+          · rcases key b tb hb with ⟨_, rfl⟩ | ⟨_, hb'⟩
+            · exact h.distinct a i ta t ha' ht hai hra hlive
+            · exact h.distinct a b ta tb ha' hb' hab hra hrb
+        · intro j u hj
+          rcases key j u hj with ⟨_, rfl⟩ | ⟨hji, hj'⟩
+          · exact hok'
+          · -- another store: its temporary file is not touched by this call
+            intro hru
+            have hd : u.tmp ≠ t.tmp := h.distinct j i u t hj' ht hji hru hlive
+            have hf : fs' u.tmp = s.fs u.tmp := next_frame hn u.tmp (h.ne j u hj') hd
+            exact (h.ok j u hj').congr hf hru
+        · intro j u hj
+          rcases key j u hj with ⟨_, rfl⟩ | ⟨_, hj'⟩
+          · exact h.mem i t ht
+          · exact h.mem j u hj'
+        · show fs' target = init ∨ ∃ b ∈ s.begun, fs' target = some b
+          rcases htg with h1 | h1
+          · rw [h1]; exact h.tgt
+          · exact Or.inr ⟨t.buf, h.mem i t ht, h1⟩
+
+theorem cinv_run (target : Path) (init : Option Bytes) (evs : List CEv) (s0 : CSt)
+    (hr : CRunOK target s0 evs) (hi : CInv target init s0) : CInv target init (crun target evs s0) := by
+  induction evs generalizing s0 with
+  | nil => exact hi
+  | cons e es ih => exact ih _ hr.2 (cinv_step target init s0 e hr.1 hi)
+
+/-- **Old or new without mutual exclusion.**  Any number of stores interleave their system calls
+arbitrarily (several goroutines without the struct mutex, several client processes on one assets
+directory), every call may fail, the run may stop anywhere.  As long as stores that are in progress
+at the same time use different temporary names, the target file holds at every instant either its
+initial content or the *complete* marshalled bytes of one of the stores begun so far — never a
+prefix, never a mixture.  (Which complete configuration wins is decided by the order of the renames.) -/
+theorem concurrent_target_complete (target : Path) (fs0 : FS) (evs : List CEv)
+    (hev : CRunOK target { fs := fs0 } evs) :
+    let s := crun target evs { fs := fs0 }
+    s.fs target = fs0 target ∨ ∃ b ∈ s.begun, s.fs target = some b :=
+  (cinv_run target (fs0 target) evs { fs := fs0 } hev (cinv_init target fs0)).tgt
+
+/-- non-vacuity: two stores interleaved call by call; the second rename wins, the first store's bytes
+were complete in between -/
+example :
+    let evs : List CEv := [.begin 0 [1, 1] "d/.c.aaaaa.tmp", .begin 1 [2, 2, 2] "d/.c.bbbbb.tmp",
+      .sys 0 .ok, .sys 1 .ok, .sys 0 (.wrote 1), .sys 1 (.wrote 3), .sys 0 (.wrote 1), .sys 1 .ok,
+      .sys 0 .ok, .sys 0 .ok]
+    (crun "d/c" evs { fs := fun _ => none }).fs "d/c" = some [1, 1] ∧
+    (crun "d/c" (evs ++ [.sys 1 .ok]) { fs := fun _ => none }).fs "d/c" = some [2, 2, 2] := by
+  decide
+
 /-! ### the temporary file's name -/
 
 /-- `.<name>.<5 random characters>.tmp` in the same directory is never the target's own name -/
